@@ -436,6 +436,7 @@ def finalize_iteration(net, niter, residual_norm, nonlinear_method, errors, tols
                        solver_vars, pit_names, filtered):
     # Control of damping factor
     if nonlinear_method == "automatic":
+        alpha_step = get_net_option(net, "alpha")
         errors_increased = set_damping_factor(net, niter, errors)
         logger.debug("alpha: %s" % get_net_option(net, "alpha"))
         for error_increased, var, val, pit, f in zip(errors_increased, solver_vars, vals_old,
@@ -447,7 +448,9 @@ def finalize_iteration(net, niter, residual_norm, nonlinear_method, errors, tols
                     net["_active_pit"][pit][:, globals()[var.upper() + 'INIT']] = val
                 else:
                     net["_active_pit"][pit][f, globals()[var.upper() + 'INIT']] = val
-        if get_net_option(net, "alpha") != 1:
+        # the result is only accepted after a full Newton step: the changes of a damped step are
+        # smaller by the damping factor and therefore do not show that the tolerances are met
+        if alpha_step != 1 or get_net_option(net, "alpha") != 1:
             net.converged = False
             return
     elif nonlinear_method != "constant":
